@@ -24,6 +24,7 @@ EPS = np.finfo(float).eps
 # is o' + s*v*h' -> at most ~10 eps*scale per level, 4 levels, factor 3 head-room.
 KTOL = 128
 FRAC = [0.5, 0.05, 0.95, 0.25, 0.75]
+STACK_DTYPES = ["uint8", "uint16", "float32", "float64"]
 
 # ---------------------------------------------------------------------------------------
 # generators
@@ -93,6 +94,55 @@ def _draw_fracs(draw, npts, dim):
     return [[draw(st.sampled_from(FRAC)) for _ in range(dim)] for _ in range(npts)]
 
 
+def _draw_tsel(draw, nt):
+    """Slice parameters [start, stop, step] of a non-empty selection of the frames 0..nt-1, built
+    against nt (no filtering): contiguous (open ends allowed), strided (step 2 or 3) or reversed
+    (step -1 or -2); every bound may also be spelled from the end (negative index), as for any
+    Python slice.  `time_interval` documents its argument as "slice" without restriction and
+    passes it to numpy, so the frames it selects are `range(nt)[slice]`."""
+    kind = "plain"
+    if nt >= 2:
+        kind = draw(st.sampled_from(["plain", "plain", "plain", "stride", "stride", "stride", "reverse"]))
+
+    def spell(i):
+        # the same bound counted from the end; i == nt (a stop at the end) has no such spelling
+        return i - nt if i < nt and draw(st.integers(0, 2)) == 0 else i
+
+    if kind == "reverse":
+        step = draw(st.sampled_from([-1, -1, -2]))
+        a = draw(st.one_of(st.none(), st.integers(0, nt - 1)))
+        a0 = nt - 1 if a is None else a
+        b = draw(st.one_of(st.none(), st.integers(0, a0 - 1))) if a0 >= 1 else None
+    else:
+        step = draw(st.sampled_from([2, 2, 3])) if kind == "stride" else draw(st.sampled_from([None, None, 1]))
+        a = draw(st.one_of(st.none(), st.integers(0, nt - 1)))
+        a0 = 0 if a is None else a
+        b = draw(st.one_of(st.none(), st.just(nt), st.integers(a0 + 1, nt)))
+    a = None if a is None else spell(a)
+    b = None if b is None else spell(b)
+    sel = list(range(nt))[slice(a, b, step)]
+    assert sel, (nt, a, b, step)
+    return [a, b, step], len(sel)
+
+
+def _tsel_classes(sl, nt):
+    """Class labels of a time selection (for the evidence)."""
+    a, b = sl[0], sl[1]
+    step = sl[2] if len(sl) > 2 else None
+    out = set()
+    sel = list(range(nt))[slice(a, b, step)]
+    if step is not None and step > 1:
+        out.add("tint-strided")
+    if step is not None and step < 0:
+        out.add("tint-reversed")
+    if (a is not None and a < 0) or (b is not None and b < 0):
+        out.add("tint-bound-from-end")
+    if len(sel) >= 2 and sel != list(range(sel[0], sel[0] + len(sel))):
+        # the selected frames are not parent[first:last] for any first, last
+        out.add("tint-not-a-run")
+    return out
+
+
 @st.composite
 def programs(draw):
     spec = draw(_img_specs())
@@ -124,11 +174,8 @@ def programs(draw):
             steps.append({"op": "tslice", "k": draw(st.integers(0, nt - 1))})
             series = False
         else:
-            a = draw(st.one_of(st.none(), st.integers(0, nt - 1)))
-            a0 = 0 if a is None else a
-            b = draw(st.one_of(st.none(), st.just(nt), st.integers(a0 + 1, nt)))
-            steps.append({"op": "tint", "sl": [a, b]})
-            nt = (nt if b is None else b) - a0
+            sl, nt = _draw_tsel(draw, nt)
+            steps.append({"op": "tint", "sl": sl})
     return {"img": spec, "cls": cls, "steps": steps}
 
 
@@ -176,10 +223,15 @@ def stack_cases(draw):
         "int_offsets": draw(st.booleans()),
         "split": draw(st.integers(1, n - 1)),
     }
-    a = draw(st.one_of(st.none(), st.integers(0, n - 1)))
-    a0 = 0 if a is None else a
-    b = draw(st.one_of(st.none(), st.just(n), st.integers(a0 + 1, n)))
-    case["tint"] = [a, b]
+    case["tint"], _ = _draw_tsel(draw, n)
+    # data types of the n images: all the one of the spec, or drawn per image.  Every pair of
+    # STACK_DTYPES has a common numpy type that holds both exactly (uint8 < uint16 < float32 <
+    # float64 on these payloads: integers < 2**16, multiples of 1/8 in [-4, 4)), so "slicing
+    # the series returns the originals" is an exact statement about values for mixed inputs too
+    if draw(st.booleans()):
+        case["dtypes"] = [draw(st.sampled_from(STACK_DTYPES)) for _ in range(n)]
+    else:
+        case["dtypes"] = None
     return case
 
 
@@ -207,7 +259,7 @@ def _build(spec, cls, extra=None):
 
 
 def _sl(pair):
-    return slice(pair[0], pair[1])
+    return slice(*pair)  # [start, stop] or [start, stop, step]
 
 
 class Model:
@@ -325,6 +377,7 @@ def _apply(img, step, model, tags=None):
         model.t = model.t[step["k"]]
         model.series = False
     elif op == "tint":
+        model.classes |= _tsel_classes(step["sl"], len(model.t))
         child = img.time_interval(_sl(step["sl"]))
         model.t = model.t[_sl(step["sl"])]
     else:  # pragma: no cover
@@ -588,6 +641,8 @@ def _stack_images(case):
     for i in range(case["n"]):
         s = dict(spec)
         s["pseed"] = spec["pseed"] + 7919 * i
+        if case.get("dtypes"):
+            s["dtype"] = case["dtypes"][i]
         extra = {}
         d = gens.BASE_DATE + _dt.timedelta(minutes=case["minutes"][i])
         if case["tclass"] in ("date", "both-offset"):
@@ -611,7 +666,13 @@ def check_stack_roundtrip(case):
     dim = spec["dim"]
     n = case["n"]
     tclass = case["tclass"]
-    t = {"dim": dim, "tclass": tclass, "payload": spec["payload"], "cls": case["cls"]}
+    dtypes = case.get("dtypes") or [spec["dtype"]] * n
+    mixed = len(set(dtypes)) > 1
+    # some later image does not fit into the type of an earlier one (the series has to widen)
+    widening = any(not np.can_cast(np.dtype(dtypes[j]), np.dtype(dtypes[i]), "safe")
+                   for i in range(n) for j in range(i + 1, n))
+    t = {"dim": dim, "tclass": tclass, "payload": spec["payload"], "cls": case["cls"],
+         "mixed_dtypes": mixed}
     imgs, arrs, dates, times = _stack_images(case)
     ref = RefCS(dim, spec["shape"], spec["dimensions"], spec["origin"])
     # offsets are documented as "float or int"
@@ -625,15 +686,23 @@ def check_stack_roundtrip(case):
         want_time = [(dates[i] - dates[0]).total_seconds() for i in range(n)]
     else:
         want_time = [None] * n
+    # numpy's common type of the inputs holds every input exactly (see STACK_DTYPES): the values
+    # of want_arr are the values of the inputs
     want_arr = np.stack(arrs, axis=dim)
+    for i in range(n):
+        assert np.array_equal(want_arr.take(i, axis=dim), arrs[i])
+    dt_note = f" (input dtypes {dtypes})" if mixed else ""
 
     def check_series(s, name, check_time):
         if not bool(s.series) or int(s.time_num) != n or int(s.time_dim) != 1:
             raise Violation("stack-series", f"{name}: series={s.series} time_num={s.time_num}", t)
         if s.img.shape != want_arr.shape or not np.array_equal(s.img, want_arr):
-            raise Violation("stack-data", f"{name}: assembled array (shape {s.img.shape}) is not "
-                            f"the inputs stacked along axis {dim} (shape {want_arr.shape})", t)
-        if s.img.dtype != want_arr.dtype:
+            raise Violation("stack-data", f"{name}: assembled array (shape {s.img.shape}, dtype "
+                            f"{s.img.dtype}) does not hold the values of the inputs stacked along "
+                            f"axis {dim} (shape {want_arr.shape}){dt_note}", t)
+        # inputs of one type keep it; for mixed inputs only the values are asserted (which wider
+        # type the series takes is the implementation's choice)
+        if not mixed and s.img.dtype != want_arr.dtype:
             raise Violation("stack-dtype", f"{name}: dtype {s.img.dtype}", t)
         if not _same_time(s.date, dates):
             raise Violation("stack-date", f"{name}: dates {s.date!r} vs the inputs' {dates!r}", t)
@@ -658,7 +727,7 @@ def check_stack_roundtrip(case):
                 raise Violation("stack-slice-series", f"{name}.time_slice({i}) is a series", t)
             if sl.img.shape != arrs[i].shape or not np.array_equal(sl.img, arrs[i]):
                 raise Violation("stack-slice-data", f"{name}.time_slice({i}) does not return "
-                                f"the data of input {i}", t)
+                                f"the data of input {i}{dt_note}", t)
             if not _same_time(sl.date, dates[i]):
                 raise Violation("stack-slice-date", f"{name}.time_slice({i}).date = {sl.date!r}, "
                                 f"input {i} has {dates[i]!r}", t)
@@ -705,14 +774,19 @@ def check_stack_roundtrip(case):
 
     # the inputs were passed as copies and must be untouched
     for i in range(n):
-        if not np.array_equal(imgs[i].img, arrs[i]) or bool(imgs[i].series):
+        if not np.array_equal(imgs[i].img, arrs[i]) or bool(imgs[i].series) \
+                or imgs[i].img.dtype != arrs[i].dtype:
             raise Violation("stack-input-changed", f"input {i} changed although a copy was passed", t)
 
     labels = (f"dim{dim}", f"n{n}", f"tclass-{tclass}", f"payload-{spec['payload']}",
               f"cls-{case['cls']}", "offsets-int" if case["int_offsets"] else "offsets-float",
-              "origin-user" if spec["origin"] is not None else "origin-default")
+              "origin-user" if spec["origin"] is not None else "origin-default",
+              "dtypes-mixed" if mixed else "dtypes-same")
+    if widening:
+        labels += ("dtypes-widening",)
+    labels += tuple(sorted(_tsel_classes(case["tint"], n)))
     key = [dim, spec["shape"], spec["payload"], spec["ncomp"], n, tclass, case["minutes"],
-           case["times"], case["offsets"], case["split"], case["tint"]]
+           case["times"], case["offsets"], case["split"], case["tint"], dtypes]
     return Outcome(True, key, labels, evals=3 * (n + 2))
 
 
@@ -723,7 +797,8 @@ _RULE = ("Hypothesis draws a root image (2-D extents <= 8, 3-D extents <= 5, sca
          "Image / ScalarImage / OpticalImage) and a program of 1-4 extraction steps (subregion by "
          "slices with open ends, border-touching and - labelled stop-beyond - stops past the border; "
          "by voxel corner points and by physical corner points, both possibly partly outside; "
-         "time_slice; time_interval) generated against the tracked shape so that every step is "
+         "time_slice; time_interval over any non-empty slice of the frames: contiguous, bounds "
+         "counted from the end, strided (step 2/3), reversed - labelled tint-*) generated against the tracked shape so that every step is "
          "non-empty; after EVERY step the child is compared with the offset-tracking model; "
          "non-trivial = (>= 2 steps and a spatial step with a non-zero row offset) or 3-D or series or "
          "vector payload; distinct = (geometry, payload kind, time kind, program)")
@@ -739,7 +814,14 @@ PROP = Prop(
         "append(image, offset): the appended relative time is image.time + offset (observed and "
         "DESIGN-stated semantics); stack() has no offsets, so relative times are asserted for "
         "stack only when they derive from dates",
-        "empty selections, negative indices and stepped slices are not generated",
+        "time_interval(slice) selects the frames range(time_num)[slice] (its argument is documented "
+        "as a slice without restriction and handed to numpy): strided, reversed and from-the-end "
+        "selections are generated; the time stamps / dates of the child are those of exactly these frames",
+        "series are assembled from images of one data type or (half of the stack cases) of per-image "
+        "types from uint8/uint16/float32/float64, whose pairwise common numpy type is exact on the "
+        "generated payloads; for mixed inputs only the values of the series and of its slices are "
+        "asserted, not which wider type it takes",
+        "empty selections are not generated; spatial ranges have no negative indices and no steps",
     ],
     subs=[
         Sub("data_block", check_data_block, gen=gen_programs,
